@@ -256,6 +256,21 @@ def write_ledger(text, name):
     return path
 
 
+def remove(path):
+    try:
+        os.unlink(path)
+    except OSError:
+        pass
+
+
+def cleanup():
+    """Remove the scratch directory if this run left it empty (another run may be using it)."""
+    try:
+        os.rmdir(TMP)
+    except OSError:
+        pass
+
+
 _CTX = {}
 
 
@@ -264,7 +279,7 @@ def context_connection():
     if 'conn' not in _CTX:
         path = write_ledger(FIXED_LEDGER, f'ctx{os.getpid()}.beancount')
         _CTX['conn'] = beanquery.connect('beancount:' + path)
-        os.unlink(path)
+        remove(path)
     return _CTX['conn']
 
 
@@ -652,7 +667,7 @@ def run_ledger_case(case):
     try:
         conn = beanquery.connect('beancount:' + path)
     finally:
-        os.unlink(path)
+        remove(path)
     res['load_errors'] = len(conn.errors)
     for tn, t in conn.tables.items():
         if tn:
